@@ -218,6 +218,44 @@ func elemHeap(elemTy types.Type, path []int) (string, types.Type) {
 	return n, t
 }
 
+// heapRefAxiom: every reference stored in the entry heap denotes an object that existed at entry
+// (needed when heap cells are read under quantifiers, where no per-load fact is generated).
+func heapRefAxiom(name string, h Term, top Term) Term {
+	t, ok := heapLeafTypes[name]
+	if !ok {
+		return True
+	}
+	depth := 1
+	if strings.HasPrefix(name, "E|") {
+		depth = 2
+	}
+	if strings.HasPrefix(name, "G|") {
+		return True
+	}
+	var ref func(Term) Term
+	switch under(t).(type) {
+	case *types.Pointer:
+		ref = func(x Term) Term { return x }
+	case *types.Slice:
+		ref = SlArr
+	case *types.Interface:
+		ref = IfVal
+	default:
+		return True
+	}
+	var bs []Bound
+	cur := h
+	for i := 0; i < depth; i++ {
+		n := fmt.Sprintf("y%d?", i)
+		bs = append(bs, Bound{n, SInt})
+		if !cur.Sort.IsArray() {
+			return True
+		}
+		cur = Select(cur, Var(n, SInt))
+	}
+	return ForallPat(bs, And(Le(IntLit(0), ref(cur)), Lt(ref(cur), top)), [][]Term{{cur}})
+}
+
 // heapRangeAxiom: every value stored in a heap of sized integers lies in the type's range
 // (an invariant of well-typed Go memory, needed when heap cells are read under quantifiers).
 func heapRangeAxiom(name string, h Term) Term {
